@@ -240,6 +240,26 @@ func Corpus() []*Schema {
 				{"o_first", 100, "string", "ext:Other"}, {"o_max", 536870911, "sint32", "ext:Other"},
 				{"t_two", 2, "int32", "ext:Tiny"}, {"t_four", 4, "string", "ext:Tiny"}, {"t_five", 5, "fixed32", "ext:Tiny"}}}},
 		FileExt: []F{{"o_last", 199, "int32", "ext:Other"}, {"o_mid_msg", 150, "msg:H", "ext:Other"}}})
+	// `reserved` declarations (numbers and names of deleted fields): a single number, short ranges between declared
+	// fields, the number before the first field, a range next to the last field, `to max`, the last number alone;
+	// in a top-level message, in nested messages that are used as singular field, list element and map value; proto2
+	// with required fields, and next to both ends of an extension range. A reserved number is an UNDEFINED number like
+	// any other: a newer or older writer may still send it, and it travels as an unknown field.
+	cs = append(cs, &Schema{ID: "reserved", Syntax: "proto3", Messages: []M{
+		{Name: "Retired", Fields: []F{{"id", 1, "int32", "opt"}, {"name", 4, "string", "opt"}, {"tags", 10, "string", "rep"}, {"sub", 11, "msg:Retired.Part", "opt"},
+			{"parts", 12, "msg:Retired.Part", "rep"}, {"by", 13, "msg:Retired.Part", "map:string"}, {"nums", 14, "sint32", "packed"}},
+			Reserved: [][2]int32{{2, 4}, {5, 6}, {7, 10}, {15, 16}, {100, 200}, {1000, 536870912}}, ReservedNames: []string{"old", "older"},
+			Nested: []M{{Name: "Part", Fields: []F{{"v", 6, "sint64", "opt"}, {"s", 9, "string", "opt"}}, Reserved: [][2]int32{{1, 6}, {7, 8}, {10, 11}}, ReservedNames: []string{"w"}}}},
+		{Name: "Gaps", Fields: []F{{"a", 2, "int32", "opt"}, {"b", 5, "int64", "packed"}, {"c", 20, "bytes", "opt"}, {"one", 21, "int32", "oneof:pick"}, {"other", 22, "string", "oneof:pick"}},
+			Reserved: [][2]int32{{1, 2}, {3, 5}, {6, 7}, {536870911, 536870912}}},
+		// nothing but reserved numbers
+		{Name: "AllGone", Reserved: [][2]int32{{1, 100}}, ReservedNames: []string{"everything"}}}})
+	cs = append(cs, &Schema{ID: "reserved2", Syntax: "proto2", Messages: []M{
+		{Name: "Base", Fields: []F{{"id", 1, "int32", "req"}, {"note", 3, "string", "opt"}, {"kid", 300, "msg:Base.Kid", "opt"}, {"kids", 301, "msg:Base.Kid", "rep"}},
+			Ranges: [][2]int32{{100, 200}}, Reserved: [][2]int32{{2, 3}, {4, 100}, {200, 300}, {302, 303}, {536870911, 536870912}}, ReservedNames: []string{"gone"},
+			Nested: []M{{Name: "Kid", Fields: []F{{"n", 2, "int64", "req"}, {"s", 4, "string", "opt"}}, Reserved: [][2]int32{{1, 2}, {3, 4}, {5, 1000}}}}},
+		{Name: "H", Fields: []F{{"note", 11, "string", "opt"}}, Reserved: [][2]int32{{1, 11}},
+			Ext: []F{{"x_first", 100, "int32", "ext:Base"}, {"x_last", 199, "string", "ext:Base"}, {"x_kid", 150, "msg:Base.Kid", "ext:Base"}}}}})
 	// two messages whose short names coincide when lower-cased: one output file name for both with
 	// filepermessage=true (open finding B15)
 	cs = append(cs, &Schema{ID: "samename", Syntax: "proto3", Messages: []M{{Name: "Outer", Fields: []F{{"a", 1, "int32", "opt"}},
